@@ -563,13 +563,13 @@ func init() {
 	Register(Spec[c35In]{
 		ID: "C35", Suite: "stream", CoqImports: []string{"Common.Media1Util", "Check.C35"},
 		CoqType: "bool * list (list pspec)", CoqRun: "Check.C35.run_stream",
-		Quick: 300, Thorough: 5000, Parallel: 8,
+		Quick: 300, Thorough: 3000, Parallel: 8,
 		Corpus: c35Corpus, Gen: c35Gen, Run: c35Run, Coq: c35Coq, Shrink: c35Shrink,
 	})
 	Register(Spec[c35KF]{
 		ID: "C35", Suite: "kf", CoqImports: []string{"Check.C35"},
 		CoqType: "bool * string", CoqRun: "Check.C35.run_kf",
-		Quick: 1000, Thorough: 30000,
+		Quick: 1000, Thorough: 20000,
 		Exhaustive: func() []c35KF {
 			var out []c35KF
 			for b := 0; b < 256; b++ {
